@@ -7,6 +7,8 @@ Out == CASE c.k = "round" -> [enc |-> Encode(c.enc, c.t, "strict")]
                              ELSE [payload |-> Payload(c).v,
                                    decode |-> SafeDecode("bytes", Payload(c).v, c.incoming),
                                    encode |-> SafeEncode("bytes", <<>>, Payload(c).v, c.incoming, c.enc, "strict")]
+         [] c.k = "decpol" -> IF Payload(c).k = "err" THEN [skip |-> TRUE]
+                              ELSE [payload |-> Payload(c).v, decode |-> TextV(AsciiLenient(Payload(c).v, c.pol))]
          [] c.k = "type" -> [decode |-> SafeDecode(c.kind, <<65>>, "utf-8"),
                              encode |-> SafeEncode(c.kind, <<65>>, <<65>>, "utf-8", "utf-8", "strict"),
                              utf8 |-> ToUtf8(c.kind, <<65>>)]
